@@ -348,7 +348,7 @@ func init() {
 		ID: "C09", Engine: "server",
 		Generate: genC09, Decode: decodeC09, Execute: execC09,
 		Config:      func(any) simrt.Config { return simrt.Config{MaxSteps: 200000, IdleProbe: 4 * 1e9} },
-		Runs:        clientRuns(40000, 3000000),
+		Runs:        clientRuns(150000, 8000000),
 		Floors:      []Floor{{Name: "all-short-batches", Count: c09FloorCount, Scenario: c09FloorScenario}},
 		Rule:        "one evaluation = one simulated run in which 1-4 request batches (0-12 items; outcomes ok/typed error/plain error/panic(error|string|Stringer|int|nil-deref)/unrouted/critical extension; option unset/Continue/Stop/Undo; supported or unsupported version; matching or mismatching count; with/without ids) are executed concurrently on one real BatchExecutor, directly or through real client -> simnet -> real server; distinct = distinct event-log hashes among runs with at least one preemption or chunked read",
 		Components:  serverComponents,
